@@ -2,9 +2,11 @@
 //
 //	xc08 <gosrc> <out.lean>
 //
-// Loads the packages that define the stored entity types (go/packages: syntax + go/types) and derives, for every root
-// type in `roots`, the schema of its msgp encoding exactly as the 0chain msgp fork's generator (parse/getast.go) reads
-// the struct definitions:
+// Parses (go/parser) the packages that define the stored entity types — and, on demand, the packages their field
+// types come from, including github.com/0chain/common in the module cache — and derives, for every root type in
+// `roots`, the schema of its msgp encoding exactly as the 0chain msgp fork's generator (parse/getast.go) reads the
+// struct definitions (the generator itself is purely syntactic, and so is this translator; identifiers are resolved
+// through the files' import tables):
 //   - a struct is a map of its fields in declaration order, keyed by the `msg:"…"` tag (fallback `msgpack:"…"`,
 //     fallback the Go field name; `-` skips the field); an embedded struct is ONE field named after its type;
 //   - unexported fields are read only when the declaring file's `//go:generate msgp` line carries `-unexported`;
@@ -12,8 +14,9 @@
 //     non-empty interface) is silently skipped by the generator — the translator does NOT skip it: it fails (a stored
 //     field that is not encoded is a C08 violation by construction), unless the field is listed in `knownSkipped`;
 //   - named types are followed to their definition when their MarshalMsg lives in a *_gen.go file (or when they have
-//     none and are inlined as casts); a hand-written MarshalMsg is accepted only for the cases modelled explicitly
-//     (state.State: fixed binary layout; the entitywrapper types: one schema per registered version).
+//     none and are inlined as casts); a hand-written MarshalMsg is accepted only in the two shapes that are modelled:
+//     the delegate `d := T2(*recv); return d.MarshalMsg(o)` (then the decoding side is read too: which fields of the
+//     helper reach the receiver) and the entity wrappers (one schema per registered version).
 //
 // Also extracted: for every versioned entity, the registered versions and, from the bodies of MigrateFrom /
 // ApplyBaseChanges, the list of fields each migration copies.
@@ -26,21 +29,21 @@ import (
 	"encoding/json"
 	"fmt"
 	"go/ast"
+	"go/parser"
 	"go/token"
-	"go/types"
 	"os"
 	"path/filepath"
 	"reflect"
+	"regexp"
 	"sort"
+	"strconv"
 	"strings"
-
-	"golang.org/x/tools/go/packages"
 )
 
 // ---- the schema tree ---------------------------------------------------------------------------------------------
 
 type Ty struct {
-	K      string   `json:"k"`                // int uint bool str bin f64 f32 time arr farr map ptr struct union
+	K      string   `json:"k"`                // int uint bool str bin f64 f32 time arr farr map ptr struct pstruct union
 	E      *Ty      `json:"e,omitempty"`      // element
 	N      int      `json:"n,omitempty"`      // farr length
 	Fields []*Field `json:"fields,omitempty"` // struct; union: one field per registered version (Msg = version string, Go = struct type name)
@@ -120,13 +123,7 @@ var versioned = []struct {
 // (recomputed after decoding) — "pkg.Type.Field": reason
 var knownSkipped = map[string]string{}
 
-// ---- loading -----------------------------------------------------------------------------------------------------
-
-var (
-	fset    *token.FileSet
-	byPath  = map[string]*packages.Package{}
-	problem []string
-)
+// ---- packages, parsed on demand ------------------------------------------------------------------------------------
 
 type failure string
 
@@ -134,136 +131,236 @@ func fail(format string, a ...interface{}) {
 	panic(failure(fmt.Sprintf(format, a...)))
 }
 
-func load(gosrc string, paths []string) {
-	cfg := &packages.Config{
-		Mode: packages.NeedName | packages.NeedFiles | packages.NeedSyntax | packages.NeedTypes | packages.NeedTypesInfo |
-			packages.NeedImports | packages.NeedDeps | packages.NeedModule,
-		Dir: gosrc,
-		Env: append(os.Environ(), "GOFLAGS=-mod=mod", "GOPROXY=off", "GOSUMDB=off", "GOWORK=off", "GOTOOLCHAIN=local"),
-	}
-	pkgs, err := packages.Load(cfg, paths...)
-	if err != nil {
-		fail("load: %v", err)
-	}
-	fset = nil
-	packages.Visit(pkgs, nil, func(p *packages.Package) {
-		byPath[p.PkgPath] = p
-		if fset == nil {
-			fset = p.Fset
-		}
-	})
-	for _, p := range pkgs {
-		for _, e := range p.Errors {
-			// cgo packages of dependencies (rocksdb, bls) do not type-check from source; the packages we read must
-			if strings.HasPrefix(p.PkgPath, "0chain.net/smartcontract") || strings.HasPrefix(p.PkgPath, "0chain.net/chaincore/block") {
-				if !strings.Contains(e.Msg, "could not import") && !strings.Contains(e.Msg, "cgo") {
-					fmt.Fprintf(os.Stderr, "xc08: warning: %s: %s\n", p.PkgPath, e.Msg)
-				}
-			}
-		}
-	}
-}
-
-// ---- finding declarations ----------------------------------------------------------------------------------------
-
 type declInfo struct {
-	pkg        *packages.Package
+	pkg        *pkgInfo
 	file       *ast.File
 	spec       *ast.TypeSpec
 	unexported bool // the declaring file's go:generate msgp line carries -unexported
 }
 
-var declCache = map[*types.TypeName]*declInfo{}
+type pkgInfo struct {
+	path    string
+	dir     string
+	specs   map[string]*declInfo
+	methods map[string]map[string]*ast.FuncDecl // receiver type name → method name → decl
+	consts  map[string]string                   // string constants with a literal value
+	files   []*ast.File
+}
 
-func declOf(obj *types.TypeName) *declInfo {
-	if d, ok := declCache[obj]; ok {
+var (
+	fset     = token.NewFileSet()
+	gosrc    string
+	pkgCache = map[string]*pkgInfo{}
+	modVers  = map[string]string{} // module path → version (from the repo's go.mod)
+	problem  []string
+	vNRe     = regexp.MustCompile(`^v[0-9]+$`)
+)
+
+func readGoMod() {
+	b, err := os.ReadFile(filepath.Join(gosrc, "go.mod"))
+	if err != nil {
+		fail("%v", err)
+	}
+	re := regexp.MustCompile(`(?m)^\s*(?:require\s+)?([A-Za-z0-9._~/-]+)\s+(v[0-9][^\s]*)`)
+	for _, m := range re.FindAllStringSubmatch(string(b), -1) {
+		modVers[m[1]] = m[2]
+	}
+}
+
+func modCache() string {
+	if d := os.Getenv("GOMODCACHE"); d != "" {
 		return d
 	}
-	if obj.Pkg() == nil {
-		return nil
+	if d := os.Getenv("GOPATH"); d != "" {
+		return filepath.Join(strings.Split(d, string(os.PathListSeparator))[0], "pkg", "mod")
 	}
-	p := byPath[obj.Pkg().Path()]
-	if p == nil {
-		return nil
+	h, _ := os.UserHomeDir()
+	return filepath.Join(h, "go", "pkg", "mod")
+}
+
+func dirOf(path string) string {
+	if strings.HasPrefix(path, "0chain.net/") {
+		return filepath.Join(gosrc, strings.TrimPrefix(path, "0chain.net/"))
 	}
-	for _, f := range p.Syntax {
-		for _, d := range f.Decls {
-			gd, ok := d.(*ast.GenDecl)
-			if !ok || gd.Tok != token.TYPE {
-				continue
+	best := ""
+	for m := range modVers {
+		if (path == m || strings.HasPrefix(path, m+"/")) && len(m) > len(best) {
+			best = m
+		}
+	}
+	if best == "" {
+		fail("import %s: not in the repository and not a required module", path)
+	}
+	return filepath.Join(modCache(), best+"@"+modVers[best], strings.TrimPrefix(path, best))
+}
+
+func receiverName(fd *ast.FuncDecl) string {
+	if fd.Recv == nil || len(fd.Recv.List) != 1 {
+		return ""
+	}
+	return embeddedName(fd.Recv.List[0].Type)
+}
+
+func loadPkg(path string) *pkgInfo {
+	if p, ok := pkgCache[path]; ok {
+		return p
+	}
+	p := &pkgInfo{path: path, dir: dirOf(path), specs: map[string]*declInfo{}, methods: map[string]map[string]*ast.FuncDecl{}, consts: map[string]string{}}
+	pkgCache[path] = p
+	ents, err := os.ReadDir(p.dir)
+	if err != nil {
+		fail("package %s: %v", path, err)
+	}
+	for _, e := range ents {
+		n := e.Name()
+		if !strings.HasSuffix(n, ".go") || strings.HasSuffix(n, "_test.go") {
+			continue
+		}
+		src, err := os.ReadFile(filepath.Join(p.dir, n))
+		if err != nil {
+			fail("%v", err)
+		}
+		head := string(src)
+		if i := strings.Index(head, "\npackage "); i >= 0 {
+			head = head[:i]
+		}
+		if strings.Contains(head, "//go:build") && !strings.Contains(head, "//go:build !") {
+			continue // built only under a tag (e.g. dev, integration_tests)
+		}
+		f, err := parser.ParseFile(fset, filepath.Join(p.dir, n), src, parser.ParseComments)
+		if err != nil {
+			fail("%v", err)
+		}
+		if strings.HasSuffix(f.Name.Name, "_test") {
+			continue
+		}
+		p.files = append(p.files, f)
+		unexp := false
+		for _, cg := range f.Comments {
+			for _, c := range cg.List {
+				if strings.HasPrefix(c.Text, "//go:generate msgp") && strings.Contains(c.Text, "-unexported") && !strings.Contains(c.Text, "-unexported=false") {
+					unexp = true
+				}
 			}
-			for _, s := range gd.Specs {
-				ts := s.(*ast.TypeSpec)
-				if p.TypesInfo.Defs[ts.Name] == obj {
-					di := &declInfo{pkg: p, file: f, spec: ts}
-					for _, cg := range f.Comments {
-						for _, c := range cg.List {
-							if strings.HasPrefix(c.Text, "//go:generate msgp") && strings.Contains(c.Text, "-unexported") && !strings.Contains(c.Text, "-unexported=false") {
-								di.unexported = true
+		}
+		for _, d := range f.Decls {
+			switch x := d.(type) {
+			case *ast.GenDecl:
+				for _, s := range x.Specs {
+					switch sp := s.(type) {
+					case *ast.TypeSpec:
+						if sp.TypeParams != nil {
+							continue
+						}
+						p.specs[sp.Name.Name] = &declInfo{pkg: p, file: f, spec: sp, unexported: unexp}
+					case *ast.ValueSpec:
+						if x.Tok == token.CONST {
+							for i, nm := range sp.Names {
+								if i < len(sp.Values) {
+									if bl, ok := sp.Values[i].(*ast.BasicLit); ok && bl.Kind == token.STRING {
+										if v, err := strconv.Unquote(bl.Value); err == nil {
+											p.consts[nm.Name] = v
+										}
+									}
+								}
 							}
 						}
 					}
-					declCache[obj] = di
-					return di
+				}
+			case *ast.FuncDecl:
+				if r := receiverName(x); r != "" {
+					if p.methods[r] == nil {
+						p.methods[r] = map[string]*ast.FuncDecl{}
+					}
+					p.methods[r][x.Name.Name] = x
 				}
 			}
 		}
 	}
-	return nil
+	return p
 }
 
-// marshalKind: where does (*T).MarshalMsg come from: "gen" (a *_gen.go file), "hand" (another file), "none".
-func marshalKind(obj *types.TypeName) string {
-	named, ok := obj.Type().(*types.Named)
-	if !ok {
-		return "none"
+// importPath: the import path bound to `alias` in file f
+func importPath(f *ast.File, alias string) string {
+	for _, im := range f.Imports {
+		path, _ := strconv.Unquote(im.Path.Value)
+		name := filepath.Base(path)
+		if im.Name != nil {
+			name = im.Name.Name
+		} else if vNRe.MatchString(name) {
+			name = filepath.Base(filepath.Dir(path))
+		}
+		if name == alias {
+			return path
+		}
 	}
-	ms := types.NewMethodSet(types.NewPointer(named))
-	for i := 0; i < ms.Len(); i++ {
-		m := ms.At(i)
-		if m.Obj().Name() != "MarshalMsg" {
-			continue
-		}
-		// a promoted method (embedded Wrapper) counts as hand-written: the type has no encoding of its own
-		if len(m.Index()) > 1 {
-			return "hand"
-		}
-		file := fset.Position(m.Obj().Pos()).Filename
-		if strings.HasSuffix(file, "_gen.go") {
-			return "gen"
-		}
-		return "hand"
-	}
-	return "none"
+	return ""
 }
 
-// ---- derivation ----------------------------------------------------------------------------------------------------
+func isStd(path string) bool { return !strings.Contains(strings.Split(path, "/")[0], ".") }
 
 type ctx struct {
-	pkg        *packages.Package
+	pkg        *pkgInfo
+	file       *ast.File
 	unexported bool
 	path       string // for messages
 }
 
-var inProgress = map[*types.TypeName]bool{}
-
-func basicTy(b *types.Basic, where string) *Ty {
-	switch b.Kind() {
-	case types.Int, types.Int8, types.Int16, types.Int32, types.Int64:
-		return &Ty{K: "int"}
-	case types.Uint, types.Uint8, types.Uint16, types.Uint32, types.Uint64:
-		return &Ty{K: "uint"}
-	case types.Bool:
-		return &Ty{K: "bool"}
-	case types.String:
-		return &Ty{K: "str"}
-	case types.Float64:
-		return &Ty{K: "f64"}
-	case types.Float32:
-		return &Ty{K: "f32"}
+// constString: a string constant expression (literal, local constant, or pkg.Const)
+func constString(c ctx, e ast.Expr) (string, bool) {
+	switch x := e.(type) {
+	case *ast.BasicLit:
+		if x.Kind == token.STRING {
+			v, err := strconv.Unquote(x.Value)
+			return v, err == nil
+		}
+	case *ast.Ident:
+		v, ok := c.pkg.consts[x.Name]
+		return v, ok
+	case *ast.SelectorExpr:
+		if id, ok := x.X.(*ast.Ident); ok {
+			if path := importPath(c.file, id.Name); path != "" && !isStd(path) {
+				v, ok := loadPkg(path).consts[x.Sel.Name]
+				return v, ok
+			}
+		}
 	}
-	fail("%s: basic type %s has no msgp encoding modelled", where, b)
-	return nil
+	return "", false
+}
+
+// ---- derivation ----------------------------------------------------------------------------------------------------
+
+var inProgress = map[string]bool{}
+
+var builtins = map[string]string{
+	"int": "int", "int8": "int", "int16": "int", "int32": "int", "int64": "int",
+	"uint": "uint", "uint8": "uint", "uint16": "uint", "uint32": "uint", "uint64": "uint", "byte": "uint",
+	"bool": "bool", "string": "str", "float64": "f64", "float32": "f32",
+}
+
+// marshalKind: where does (*T).MarshalMsg come from: "gen" (a *_gen.go file), "hand" (another file), "none".
+func marshalKind(p *pkgInfo, name string) string {
+	if m, ok := p.methods[name]["MarshalMsg"]; ok {
+		if strings.HasSuffix(fset.Position(m.Pos()).Filename, "_gen.go") {
+			return "gen"
+		}
+		return "hand"
+	}
+	// a struct that embeds entitywrapper.Wrapper has the wrapper's (hand-written) MarshalMsg promoted to it
+	if d := p.specs[name]; d != nil {
+		if st, ok := d.spec.Type.(*ast.StructType); ok {
+			for _, f := range st.Fields.List {
+				if len(f.Names) == 0 {
+					if s, ok := f.Type.(*ast.SelectorExpr); ok && s.Sel.Name == "Wrapper" {
+						if id, ok := s.X.(*ast.Ident); ok && importPath(d.file, id.Name) == "0chain.net/core/util/entitywrapper" {
+							return "hand"
+						}
+					}
+				}
+			}
+		}
+	}
+	return "none"
 }
 
 // ofExpr: the generator's parseExpr on a type expression; nil = the generator cannot express it (field skipped).
@@ -291,12 +388,14 @@ func ofExpr(c ctx, e ast.Expr) *Ty {
 			return nil
 		}
 		if x.Len != nil {
-			tv, ok := c.pkg.TypesInfo.Types[x.Len]
-			if !ok || tv.Value == nil {
-				fail("%s: array length is not a constant", c.path)
+			bl, ok := x.Len.(*ast.BasicLit)
+			if !ok {
+				fail("%s: array length is not a literal", c.path)
 			}
-			n := 0
-			fmt.Sscan(tv.Value.ExactString(), &n)
+			n, err := strconv.Atoi(bl.Value)
+			if err != nil {
+				fail("%s: array length %s", c.path, bl.Value)
+			}
 			return &Ty{K: "farr", E: el, N: n}
 		}
 		return &Ty{K: "arr", E: el}
@@ -307,28 +406,41 @@ func ofExpr(c ctx, e ast.Expr) *Ty {
 		}
 		return &Ty{K: "ptr", E: in}
 	case *ast.StructType:
-		return structTy(c, x, "")
+		return structTy(c, x)
 	case *ast.InterfaceType:
 		if x.Methods == nil || len(x.Methods.List) == 0 {
 			fail("%s: interface{} field: msgp encodes it with AppendIntf (map order unspecified) — not modelled", c.path)
 		}
 		return nil
-	case *ast.Ident, *ast.SelectorExpr:
-		var id *ast.Ident
-		if s, ok := x.(*ast.SelectorExpr); ok {
-			id = s.Sel
-		} else {
-			id = x.(*ast.Ident)
+	case *ast.Ident:
+		if k, ok := builtins[x.Name]; ok {
+			return &Ty{K: k}
 		}
-		obj := c.pkg.TypesInfo.Uses[id]
-		if obj == nil {
-			obj = c.pkg.TypesInfo.Defs[id]
+		if x.Name == "error" || x.Name == "any" {
+			fail("%s: field of type %s", c.path, x.Name)
 		}
-		tn, ok := obj.(*types.TypeName)
+		return ofTypeName(c, c.pkg, x.Name)
+	case *ast.SelectorExpr:
+		id, ok := x.X.(*ast.Ident)
 		if !ok {
-			fail("%s: %s does not name a type", c.path, id.Name)
+			fail("%s: unsupported selector type", c.path)
 		}
-		return ofTypeName(c, tn)
+		path := importPath(c.file, id.Name)
+		if path == "" {
+			fail("%s: cannot resolve package %s", c.path, id.Name)
+		}
+		if path == "time" {
+			switch x.Sel.Name {
+			case "Time":
+				return &Ty{K: "time"}
+			case "Duration":
+				return &Ty{K: "int", Named: "time.Duration"}
+			}
+		}
+		if isStd(path) {
+			fail("%s: standard library type %s.%s has no msgp encoding modelled", c.path, path, x.Sel.Name)
+		}
+		return ofTypeName(c, loadPkg(path), x.Sel.Name)
 	case *ast.FuncType, *ast.ChanType:
 		return nil
 	case *ast.IndexExpr, *ast.IndexListExpr:
@@ -338,81 +450,58 @@ func ofExpr(c ctx, e ast.Expr) *Ty {
 	return nil
 }
 
-func ofTypeName(c ctx, tn *types.TypeName) *Ty {
-	full := tn.Name()
-	if tn.Pkg() != nil {
-		full = tn.Pkg().Path() + "." + tn.Name()
+func ofTypeName(c ctx, p *pkgInfo, name string) *Ty {
+	full := p.path + "." + name
+	d := p.specs[name]
+	if d == nil {
+		fail("%s: declaration of %s not found", c.path, full)
 	}
-	switch full {
-	case "time.Time":
-		return &Ty{K: "time"}
-	case "time.Duration":
-		return &Ty{K: "int", Named: full}
-	}
-	if tn.IsAlias() {
-		// an alias is transparent to go/types; to the generator it is an identifier it resolves to the aliased type's
-		// methods — same thing
-		switch u := tn.Type().(type) {
-		case *types.Basic:
-			return basicTy(u, c.path)
-		case *types.Named:
-			return ofTypeName(c, u.Obj())
+	c2 := ctx{pkg: p, file: d.file, unexported: d.unexported, path: full}
+	if d.spec.Assign.IsValid() {
+		// alias: transparent
+		t := ofExpr(c2, d.spec.Type)
+		if t == nil {
+			fail("%s: alias %s of an inexpressible type", c.path, full)
 		}
-		fail("%s: alias %s of %s not modelled", c.path, full, tn.Type())
+		return t
 	}
-	if b, ok := tn.Type().(*types.Basic); ok { // predeclared
-		if b.Name() == "byte" {
-			return &Ty{K: "uint"}
-		}
-		return basicTy(b, c.path)
-	}
-	named, ok := tn.Type().(*types.Named)
-	if !ok {
-		fail("%s: %s is not a named type", c.path, full)
-	}
-	mk := marshalKind(tn)
+	mk := marshalKind(p, name)
 	if mk == "hand" {
-		if t := handWritten(c, tn, full); t != nil {
+		if t := handWritten(c, p, name, full); t != nil {
 			return t
 		}
 		fail("%s: %s has a hand-written MarshalMsg that is not modelled", c.path, full)
 	}
-	d := declOf(tn)
-	if d == nil {
-		// a named type of a dependency whose syntax we did not load: accept basic underlying types only
-		if b, ok := named.Underlying().(*types.Basic); ok && mk != "hand" {
-			t := basicTy(b, c.path)
-			t.Named = full
-			return t
-		}
-		fail("%s: declaration of %s not found", c.path, full)
-	}
 	if mk == "none" {
-		// the generated code of the USER of this type either inlines a cast (local type with a basic underlying type)
-		// or would not compile; accept basic underlying types only
-		if b, ok := named.Underlying().(*types.Basic); ok {
-			t := basicTy(b, c.path)
-			t.Named = full
-			return t
+		// the generated code of the USER of this type either inlines a cast (basic underlying type), inlines the
+		// struct (same package), or would not compile
+		switch x := d.spec.Type.(type) {
+		case *ast.Ident:
+			if k, ok := builtins[x.Name]; ok {
+				return &Ty{K: k, Named: full}
+			}
+		case *ast.StructType:
+			if p != c.pkg {
+				fail("%s: %s has no MarshalMsg", c.path, full)
+			}
 		}
-		if _, isStruct := named.Underlying().(*types.Struct); isStruct && d.pkg == c.pkg {
-			// a local struct type the generator was told to ignore, or that is inlined: it is inlined field by field
-		} else {
+		if _, isStruct := d.spec.Type.(*ast.StructType); !isStruct && convertedStruct(d) == nil {
 			fail("%s: %s has no MarshalMsg and is not a basic type", c.path, full)
 		}
 	}
-	if inProgress[tn] {
+	if inProgress[full] {
 		fail("%s: recursive type %s not modelled", c.path, full)
 	}
-	inProgress[tn] = true
-	defer delete(inProgress, tn)
-	c2 := ctx{pkg: d.pkg, unexported: d.unexported, path: full}
+	inProgress[full] = true
+	defer delete(inProgress, full)
 	var t *Ty
 	if st, ok := d.spec.Type.(*ast.StructType); ok {
-		t = structTy(c2, st, full)
-	} else if st := convertedStruct(d); st != nil {
+		t = structTy(c2, st)
+	} else if cs := convertedStruct(d); cs != nil {
 		// `type X Y` with Y a struct type: X has Y's fields and none of its methods
-		t = structTy(c2, st, full)
+		c3 := c2
+		c3.pkg, c3.file = cs.pkg, cs.file
+		t = structTy(c3, cs.spec.Type.(*ast.StructType))
 	} else {
 		t = ofExpr(c2, d.spec.Type)
 		if t == nil {
@@ -424,30 +513,35 @@ func ofTypeName(c ctx, tn *types.TypeName) *Ty {
 	return &cp
 }
 
-// convertedStruct: for `type X Y` (Y a named struct type) the struct definition of Y.
-func convertedStruct(d *declInfo) *ast.StructType {
-	var id *ast.Ident
+// convertedStruct: for `type X Y` (Y a named struct type, possibly through further conversions) the declaration of Y.
+func convertedStruct(d *declInfo) *declInfo {
+	var p *pkgInfo
+	var name string
 	switch x := d.spec.Type.(type) {
 	case *ast.Ident:
-		id = x
+		if _, ok := builtins[x.Name]; ok {
+			return nil
+		}
+		p, name = d.pkg, x.Name
 	case *ast.SelectorExpr:
-		id = x.Sel
+		id, ok := x.X.(*ast.Ident)
+		if !ok {
+			return nil
+		}
+		path := importPath(d.file, id.Name)
+		if path == "" || isStd(path) {
+			return nil
+		}
+		p, name = loadPkg(path), x.Sel.Name
 	default:
 		return nil
 	}
-	tn, ok := d.pkg.TypesInfo.Uses[id].(*types.TypeName)
-	if !ok || tn.IsAlias() {
+	d2 := p.specs[name]
+	if d2 == nil || d2.spec.Assign.IsValid() {
 		return nil
 	}
-	if _, ok := tn.Type().Underlying().(*types.Struct); !ok {
-		return nil
-	}
-	d2 := declOf(tn)
-	if d2 == nil {
-		return nil
-	}
-	if st, ok := d2.spec.Type.(*ast.StructType); ok {
-		return st
+	if _, ok := d2.spec.Type.(*ast.StructType); ok {
+		return d2
 	}
 	return convertedStruct(d2)
 }
@@ -455,29 +549,27 @@ func convertedStruct(d *declInfo) *ast.StructType {
 // handWritten: the two hand-written MarshalMsg shapes that are modelled.
 //  1. the delegate  `d := T2(*recv); return d.MarshalMsg(o)`  (Partitions, AllocationChallenges, node.Pool): the bytes are T2's;
 //  2. a struct embedding entitywrapper.Wrapper: the bytes are those of the current version's struct → union of the versions.
-func handWritten(c ctx, tn *types.TypeName, full string) *Ty {
-	p := byPath[tn.Pkg().Path()]
-	if p == nil {
-		return nil
-	}
+func handWritten(c ctx, p *pkgInfo, name, full string) *Ty {
 	for _, v := range versioned {
-		if v.pkg == tn.Pkg().Path() && v.wrapper == tn.Name() {
-			st, ok := tn.Type().Underlying().(*types.Struct)
-			if !ok || st.NumFields() != 1 || !st.Field(0).Embedded() || st.Field(0).Type().String() != "0chain.net/core/util/entitywrapper.Wrapper" {
+		if v.pkg == p.path && v.wrapper == name {
+			st, ok := p.specs[name].spec.Type.(*ast.StructType)
+			if !ok || len(st.Fields.List) != 1 || len(st.Fields.List[0].Names) != 0 || embeddedName(st.Fields.List[0].Type) != "Wrapper" {
 				fail("%s: %s is listed as an entity wrapper but is not `struct{ entitywrapper.Wrapper }`", c.path, full)
 			}
 			u := &Ty{K: "union", Named: full}
 			reg := registered(p, v.wrapper)
+			if len(reg) != len(v.versions) {
+				fail("%s: %d versions registered, %d expected (%v)", full, len(reg), len(v.versions), reg)
+			}
 			for i, vn := range v.versions {
 				ver := fmt.Sprintf("v%d", i+1)
 				if reg[ver] != vn {
 					fail("%s: version %s is registered as %q, expected %s", full, ver, reg[ver], vn)
 				}
-				obj, ok := p.Types.Scope().Lookup(vn).(*types.TypeName)
-				if !ok {
+				if p.specs[vn] == nil {
 					fail("%s: version struct %s not found", full, vn)
 				}
-				vt := ofTypeName(c, obj)
+				vt := ofTypeName(c, p, vn)
 				// the version string written by InitVersion must be the registered key (v1 has no version field)
 				hasVer := false
 				for _, f := range vt.Fields {
@@ -492,16 +584,17 @@ func handWritten(c ctx, tn *types.TypeName, full string) *Ty {
 					fail("%s: %s: only versions after the first carry a `version` key", full, vn)
 				}
 				if i > 0 {
-					iv := funcDecl(p, vn, "InitVersion")
-					if iv == nil || len(iv.Body.List) != 1 {
+					iv := p.methods[vn]["InitVersion"]
+					if iv == nil || iv.Body == nil || len(iv.Body.List) != 1 {
 						fail("%s: %s.InitVersion is not a single assignment", full, vn)
 					}
 					as, ok := iv.Body.List[0].(*ast.AssignStmt)
 					if !ok || len(as.Rhs) != 1 {
 						fail("%s: %s.InitVersion is not a single assignment", full, vn)
 					}
-					tv := p.TypesInfo.Types[as.Rhs[0]]
-					if tv.Value == nil || strings.Trim(tv.Value.ExactString(), `"`) != ver {
+					d := p.specs[vn]
+					sv, ok := constString(ctx{pkg: p, file: d.file}, as.Rhs[0])
+					if !ok || sv != ver {
 						fail("%s: %s.InitVersion does not set the registered version %q", full, vn, ver)
 					}
 				}
@@ -510,7 +603,7 @@ func handWritten(c ctx, tn *types.TypeName, full string) *Ty {
 			return u
 		}
 	}
-	fd := funcDecl(p, tn.Name(), "MarshalMsg")
+	fd := p.methods[name]["MarshalMsg"]
 	if fd == nil || fd.Body == nil || len(fd.Body.List) != 2 || len(fd.Recv.List[0].Names) != 1 {
 		return nil
 	}
@@ -528,11 +621,7 @@ func handWritten(c ctx, tn *types.TypeName, full string) *Ty {
 		return nil
 	}
 	id, ok := conv.Fun.(*ast.Ident)
-	if !ok {
-		return nil
-	}
-	t2, ok := p.TypesInfo.Uses[id].(*types.TypeName)
-	if !ok {
+	if !ok || p.specs[id.Name] == nil {
 		return nil
 	}
 	call, ok := rt.Results[0].(*ast.CallExpr)
@@ -543,12 +632,12 @@ func handWritten(c ctx, tn *types.TypeName, full string) *Ty {
 	if !ok || sel.Sel.Name != "MarshalMsg" || embeddedName(sel.X) != embeddedName(as.Lhs[0]) {
 		return nil
 	}
-	t := ofTypeName(c, t2)
+	t := ofTypeName(c, p, id.Name)
 	cp := *t
-	cp.Named = full + " (as " + t2.Name() + ")"
+	cp.Named = full + " (as " + id.Name + ")"
 	// the decoding side: `d := &T2{}; d.UnmarshalMsg(b); …` — which fields of d reach the receiver?
 	if cp.K == "struct" {
-		all, kept := restoredFields(p, tn.Name(), t2.Name())
+		all, kept := restoredFields(p, name)
 		if !all {
 			cp.K = "pstruct"
 			cp.Keep = []string{}
@@ -566,8 +655,8 @@ func handWritten(c ctx, tn *types.TypeName, full string) *Ty {
 
 // restoredFields: in the hand-written (*recv).UnmarshalMsg, either `*recv = T(*d)` (everything) or the list of
 // `recv.F = d.F` assignments.
-func restoredFields(p *packages.Package, recv, helper string) (all bool, kept []string) {
-	fd := funcDecl(p, recv, "UnmarshalMsg")
+func restoredFields(p *pkgInfo, recv string) (all bool, kept []string) {
+	fd := p.methods[recv]["UnmarshalMsg"]
 	if fd == nil || fd.Body == nil || len(fd.Recv.List[0].Names) != 1 {
 		fail("%s: hand-written MarshalMsg without a readable UnmarshalMsg", recv)
 	}
@@ -589,7 +678,6 @@ func restoredFields(p *packages.Package, recv, helper string) (all bool, kept []
 		}
 		return true
 	})
-	_ = helper
 	return
 }
 
@@ -605,7 +693,7 @@ func embeddedName(e ast.Expr) string {
 	return ""
 }
 
-func structTy(c ctx, st *ast.StructType, owner string) *Ty {
+func structTy(c ctx, st *ast.StructType) *Ty {
 	t := &Ty{K: "struct"}
 	for _, f := range st.Fields.List {
 		tag := ""
@@ -676,32 +764,18 @@ type migration struct {
 	SetsVer  string
 }
 
-func funcDecl(p *packages.Package, recv, name string) *ast.FuncDecl {
-	for _, f := range p.Syntax {
-		for _, d := range f.Decls {
-			fd, ok := d.(*ast.FuncDecl)
-			if !ok || fd.Name.Name != name || fd.Recv == nil || len(fd.Recv.List) != 1 {
-				continue
-			}
-			if embeddedName(fd.Recv.List[0].Type) == recv {
-				return fd
-			}
-		}
-	}
-	return nil
-}
-
 // copiedFields: `recv.F = x.F` assignments in the body of method `name` of `recv`, following one level of
 // `recv.ApplyBaseChanges(...)`.
-func copiedFields(p *packages.Package, recv, name string, depth int) (fields []string, ver string) {
-	fd := funcDecl(p, recv, name)
-	if fd == nil {
+func copiedFields(p *pkgInfo, recv, name string, depth int) (fields []string, ver string) {
+	fd := p.methods[recv][name]
+	if fd == nil || fd.Body == nil {
 		fail("method %s.%s not found", recv, name)
 	}
 	rn := ""
 	if len(fd.Recv.List[0].Names) == 1 {
 		rn = fd.Recv.List[0].Names[0].Name
 	}
+	d := p.specs[recv]
 	ast.Inspect(fd.Body, func(n ast.Node) bool {
 		switch x := n.(type) {
 		case *ast.AssignStmt:
@@ -715,20 +789,13 @@ func copiedFields(p *packages.Package, recv, name string, depth int) (fields []s
 			if id, ok := l.X.(*ast.Ident); !ok || id.Name != rn {
 				return true
 			}
-			switch r := x.Rhs[0].(type) {
-			case *ast.SelectorExpr:
-				if r.Sel.Name == l.Sel.Name {
-					fields = append(fields, l.Sel.Name)
-				}
-			case *ast.BasicLit:
-				if l.Sel.Name == "Version" {
-					ver = strings.Trim(r.Value, `"`)
-				}
-			case *ast.Ident:
-				if l.Sel.Name == "Version" {
-					if o, ok := p.TypesInfo.Uses[r].(*types.Const); ok {
-						ver = strings.Trim(o.Val().ExactString(), `"`)
-					}
+			if r, ok := x.Rhs[0].(*ast.SelectorExpr); ok && r.Sel.Name == l.Sel.Name {
+				fields = append(fields, l.Sel.Name)
+				return true
+			}
+			if l.Sel.Name == "Version" {
+				if v, ok := constString(ctx{pkg: p, file: d.file}, x.Rhs[0]); ok {
+					ver = v
 				}
 			}
 		case *ast.CallExpr:
@@ -745,9 +812,9 @@ func copiedFields(p *packages.Package, recv, name string, depth int) (fields []s
 }
 
 // registered: the version map of the RegisterWrapper(&wrapper{}, map[string]EntityI{…}) call.
-func registered(p *packages.Package, wrapper string) map[string]string {
+func registered(p *pkgInfo, wrapper string) map[string]string {
 	out := map[string]string{}
-	for _, f := range p.Syntax {
+	for _, f := range p.files {
 		ast.Inspect(f, func(n ast.Node) bool {
 			c, ok := n.(*ast.CallExpr)
 			if !ok || len(c.Args) != 2 {
@@ -771,11 +838,10 @@ func registered(p *packages.Package, wrapper string) map[string]string {
 			}
 			for _, el := range m.Elts {
 				kv := el.(*ast.KeyValueExpr)
-				tv := p.TypesInfo.Types[kv.Key]
-				if tv.Value == nil {
-					fail("RegisterWrapper(%s): version key is not a constant", wrapper)
+				ver, ok := constString(ctx{pkg: p, file: f}, kv.Key)
+				if !ok {
+					fail("RegisterWrapper(%s): version key is not a string constant", wrapper)
 				}
-				ver := strings.Trim(tv.Value.ExactString(), `"`)
 				vu, ok := kv.Value.(*ast.UnaryExpr)
 				if !ok {
 					fail("RegisterWrapper(%s): version value is not &T{}", wrapper)
@@ -789,6 +855,15 @@ func registered(p *packages.Package, wrapper string) map[string]string {
 }
 
 // ---- output ------------------------------------------------------------------------------------------------------
+
+// leanKey: a key as the list of its ASCII bytes (the kernel never has to decode a string literal), with the text as a comment
+func leanKey(k string) string {
+	q := make([]string, len(k))
+	for i := 0; i < len(k); i++ {
+		q[i] = fmt.Sprintf("%d", k[i])
+	}
+	return "[" + strings.Join(q, ", ") + "] /- " + k + " -/"
+}
 
 func leanTy(t *Ty, ind string) string {
 	switch t.K {
@@ -806,7 +881,7 @@ func leanTy(t *Ty, ind string) string {
 		if t.K == "pstruct" {
 			q := make([]string, len(t.Keep))
 			for i, k := range t.Keep {
-				q[i] = fmt.Sprintf("%q", k)
+				q[i] = leanKey(k)
 			}
 			mk = "mkPStruct [" + strings.Join(q, ", ") + "]"
 		}
@@ -819,7 +894,7 @@ func leanTy(t *Ty, ind string) string {
 			if i > 0 {
 				b.WriteString(",")
 			}
-			b.WriteString("\n" + ind + "  (" + fmt.Sprintf("%q", f.Msg) + ", " + leanTy(f.T, ind+"  ") + ")")
+			b.WriteString("\n" + ind + "  (" + leanKey(f.Msg) + ", " + leanTy(f.T, ind+"  ") + ")")
 		}
 		b.WriteString("])")
 		return b.String()
@@ -846,17 +921,9 @@ func main() {
 		fmt.Fprintln(os.Stderr, "usage: xc08 <gosrc> <out.lean>")
 		os.Exit(2)
 	}
-	gosrc, out := os.Args[1], os.Args[2]
-	pset := map[string]bool{}
-	for _, r := range roots {
-		pset[r.pkg] = true
-	}
-	var paths []string
-	for p := range pset {
-		paths = append(paths, p)
-	}
-	sort.Strings(paths)
-	load(gosrc, paths)
+	var out string
+	gosrc, out = os.Args[1], os.Args[2]
+	readGoMod()
 
 	schemas := map[string]*Ty{}
 	var order []string
@@ -885,15 +952,12 @@ func main() {
 					}
 				}
 			}()
-			p := byPath[r.pkg]
-			if p == nil {
-				fail("package %s not loaded", r.pkg)
-			}
-			obj, ok := p.Types.Scope().Lookup(r.name).(*types.TypeName)
-			if !ok {
+			p := loadPkg(r.pkg)
+			d := p.specs[r.name]
+			if d == nil {
 				fail("%s.%s: no such type", r.pkg, r.name)
 			}
-			t := ofTypeName(ctx{pkg: p, path: leanName(r)}, obj)
+			t := ofTypeName(ctx{pkg: p, file: d.file, path: leanName(r)}, p, r.name)
 			schemas[leanName(r)] = t
 			order = append(order, leanName(r))
 			count(t)
@@ -910,7 +974,7 @@ func main() {
 	type verEntry struct{ Wrapper, Version, Type string }
 	var vers []verEntry
 	for _, v := range versioned {
-		p := byPath[v.pkg]
+		p := loadPkg(v.pkg)
 		reg := registered(p, v.wrapper)
 		if len(reg) != len(v.versions) {
 			fail("%s: %d versions registered, %d expected (%v)", v.wrapper, len(reg), len(v.versions), reg)
@@ -946,40 +1010,35 @@ func main() {
 		}
 		fmt.Fprintf(&b, "  (%q, %s)%s\n", n, strings.ReplaceAll(n, ".", "_"), sep)
 	}
-	b.WriteString("]\n\n/-- registered versions of the entity-wrapper types: (wrapper, version string, schema name) -/\n")
-	b.WriteString("def versions : List (String × String × String) := [\n")
+	idx := map[string]int{}
+	for i, n := range order {
+		idx[n] = i
+	}
+	b.WriteString("]\n\n/-- registered versions of the entity-wrapper types: (wrapper, version string, index of the version's schema in `schemas`) -/\n")
+	b.WriteString("def versions : List (String × Bytes × Nat) := [\n")
 	for i, v := range vers {
 		sep := ","
 		if i == len(vers)-1 {
 			sep = ""
 		}
-		fmt.Fprintf(&b, "  (%q, %q, %q)%s\n", v.Wrapper, v.Version, v.Type, sep)
+		fmt.Fprintf(&b, "  (%q, %s, %d)%s  -- %s\n", v.Wrapper, leanKey(v.Version), idx[v.Type], sep, v.Type)
 	}
-	b.WriteString("]\n\n/-- migrations: (from schema, to schema, Go fields copied by MigrateFrom/ApplyBaseChanges, version string it sets) -/\n")
-	b.WriteString("def migrations : List (String × String × List String × String) := [\n")
+	b.WriteString("]\n\n/-- migrations: (index of the old schema, index of the new schema, msg keys of the fields MigrateFrom/ApplyBaseChanges copy, version string it sets) -/\n")
+	b.WriteString("def migrations : List (Nat × Nat × List Bytes × Bytes) := [\n")
 	for i, m := range migs {
 		sep := ","
 		if i == len(migs)-1 {
 			sep = ""
 		}
-		q := make([]string, len(m.Copied))
-		for j, f := range m.Copied {
-			q[j] = fmt.Sprintf("%q", f)
-		}
-		fmt.Fprintf(&b, "  (%q, %q, [%s], %q)%s\n", m.From, m.To, strings.Join(q, ", "), m.SetsVer, sep)
-	}
-	b.WriteString("]\n\n/-- msg key ↦ Go field name of the top-level fields of every schema (migrations are written in Go field names) -/\n")
-	b.WriteString("def goNames : List (String × List (String × String)) := [\n")
-	for i, n := range order {
-		sep := ","
-		if i == len(order)-1 {
-			sep = ""
-		}
 		var q []string
-		for _, f := range schemas[n].Fields {
-			q = append(q, fmt.Sprintf("(%q, %q)", f.Msg, f.Go))
+		for _, g := range m.Copied {
+			for _, f := range schemas[m.From].Fields {
+				if f.Go == g {
+					q = append(q, leanKey(f.Msg))
+				}
+			}
 		}
-		fmt.Fprintf(&b, "  (%q, [%s])%s\n", n, strings.Join(q, ", "), sep)
+		fmt.Fprintf(&b, "  (%d, %d, [%s], %s)%s  -- %s -> %s\n", idx[m.From], idx[m.To], strings.Join(q, ", "), leanKey(m.SetsVer), sep, m.From, m.To)
 	}
 	b.WriteString("]\n\nend ZChain.Codec.Gen\n")
 	if err := os.WriteFile(out, []byte(b.String()), 0o644); err != nil {
@@ -995,6 +1054,6 @@ func main() {
 		ks = append(ks, fmt.Sprintf("%s=%d", k, n))
 	}
 	sort.Strings(ks)
-	fmt.Printf("schemas=%d versions=%d migrations=%d\n", len(order), len(vers), len(migs))
+	fmt.Printf("schemas=%d versions=%d migrations=%d packages parsed=%d\n", len(order), len(vers), len(migs), len(pkgCache))
 	fmt.Printf("node kinds: %s\n", strings.Join(ks, " "))
 }
